@@ -52,7 +52,8 @@ Fixpoint onebyte_find (fuel : nat) (id : Z) (l : list Z) : res (option (list Z))
     | b :: t =>
       if b =? 0 then onebyte_find f id t else
       let len := u8 (Z.land b 15 + 1) in
-      if Z.shiftr b 4 =? id then (if zlen t <? len then Panic else Ok (Some (take len t)))
+      if Z.shiftr b 4 =? 15 then Ok None       (* the reserved id ends the walk, as in GetIDs *)
+      else if Z.shiftr b 4 =? id then (if zlen t <? len then Panic else Ok (Some (take len t)))
       else onebyte_find f id (drop len t)
     end
   end.
